@@ -17,7 +17,8 @@ RULE = (
     "transformations (atom permutation pi, atom listing order, bond listing order, endpoint "
     "flips, file index map), via the graph constructor or own V3000/V2000 renderings, plus all "
     "n! relabelings when n<=6; oracle: byte-equal pipeline strings. Non-trivial = n>=2 and at "
-    "least one transformed description differs from the base description (pi is not a "
+    "Additionally (finite sweeps): all coloured graphs with n<=4 (quick) / n<=5 (thorough) atoms over 4 colours under ALL n! relabelings, and all 117 pairs of neighbouring elements described via constructor and via an own TUCAN spelling. "
+    "Non-trivial: at least one transformed description differs from the base description (pi is not a "
     "colour-preserving automorphism fixing the listing, or listing orders differ); distinct by "
     "digest of (molecule, transformations)."
 )
@@ -205,4 +206,32 @@ def extra(ctx):
                 if len(failures) < 3:
                     failures.append({"sub": e.sub, "message": e.msg, "details": {}, "case": case, "bucket": list(bucket_of(e))})
     stats.label("element_pair_sweep_cases", n_cases)
-    return {"failures": failures, "stats": stats.dump(), "info": {"element_pairs_swept": 117}}
+    # small-scope exhaustive sweep: every coloured graph up to isomorphism below the bound, under
+    # ALL n! relabelings
+    from .. import smallscope
+
+    nmax, ncol = (4, 4) if ctx["tier"] == "quick" else (5, 4)
+    classes, evals, fails = smallscope.sweep(__name__, "smallscope_fn", nmax, ncol)
+    failures.extend(fails)
+    stats.evaluated(evals)
+    stats.label("smallscope_classes", classes)
+    return {"failures": failures, "stats": stats.dump(),
+            "info": {"element_pairs_swept": 117, "smallscope": f"all {classes} coloured graphs with n<={nmax} over {ncol} colours (C, 13C, O, C-radical) under all n! relabelings"}}
+
+
+def smallscope_fn(mol):
+    base = pipeline(mol_to_graph(mol), "smallscope-base")
+    k = 1
+    for pi in itertools.permutations(range(mol.n)):
+        s = pipeline(mol_to_graph(mol.permute(list(pi))), "smallscope-permuted")
+        k += 1
+        if s != base:
+            raise Violation("string-invariance", f"small scope: {mol.brief()} relabelled by {list(pi)}: {base!r} != {s!r}")
+    return k
+
+
+def replay_extra(rec, stats):
+    if "smallscope" in rec["case"]:
+        smallscope_fn(Mol.from_json(rec["case"]["smallscope"]))
+    else:
+        check(rec["case"], stats)
